@@ -358,6 +358,12 @@ func (u *upstream) handleRedirection(req *simpleRequest, resp *RespValue) {
 		// NOTE: ASKING only covers the very next command of the connection, so
 		// the two requests must not be separated by other traffic.
 		u.makeRequestsToHost(hostAddr, askingReq, req)
+	default:
+		// NOTE: the caller matches the prefix with Unicode case folding, which
+		// also accepts spellings ToLower does not map to moved/ask. Whatever
+		// it is, the request must be answered.
+		req.SetResponse(resp)
+		return
 	}
 	u.triggerSlotsRefresh()
 }
